@@ -11,8 +11,10 @@ UTF-8 codec for multi-byte characters.
 
 Readings of the statement fixed here (each is also listed in bounded/C05.py's report):
  * the sequence table `escape.input_sequences` IS the documentation of key names ("every entry of the
-   escape-sequence table"); it is used as data only.  ANCHORS below is an independent, hand-written
-   subset (xterm ctlseqs) so that a corrupted table would still be noticed.
+   escape-sequence table"); it is used as data only - EXCEPT for the names of the modified cursor / editing /
+   function keys (376 entries generated at import time from the xterm modifier parameter), which come from
+   spec/xterm_keys.py, and of the hand-written ANCHORS below (xterm ctlseqs): `table()` overrides the table's
+   names with those, so a corrupted table IS noticed by every naming oracle.
  * priority when one byte string is both a table entry and a cursor-position report (ESC[1;5R is
    "ctrl f3" and CPR row 1 col 5): the table wins - the ambiguity is in the terminal protocol itself.
  * an SGR mouse report is ESC[< digits ; digits ; digits (M|m) with ASCII decimal digits only; anything
@@ -57,7 +59,19 @@ def table():
     if _TABLE is None:
         from urwid.display import escape
 
-        _TABLE = [(s.encode("ascii"), name) for s, name in escape.input_sequences if s not in ("[M", "[<")]
+        from spec import xterm_keys
+
+        # Names: the table is data ONLY for the sequences no independent source below speaks about.  For modified
+        # cursor / editing / function keys (xterm modifier parameter 1..8) the name comes from spec/xterm_keys.py
+        # (written from xterm ctlseqs, imports nothing of urwid); for the hand-written ANCHORS from ANCHORS.  A
+        # documented modified-key combination the table lacks is added (the reference then expects the documented
+        # name where the real decoder passes bytes through).
+        def doc(s, name):
+            return xterm_keys.documented_name(s) or ANCHORS.get(b"\x1b" + s.encode("ascii")) or name
+
+        have = {s for s, _n in escape.input_sequences}
+        _TABLE = [(s.encode("ascii"), doc(s, name)) for s, name in escape.input_sequences if s not in ("[M", "[<")]
+        _TABLE += [(s.encode("ascii"), name) for s, name in xterm_keys.documented_table() if s not in have]
     return _TABLE
 
 
